@@ -207,7 +207,7 @@ func (p *CPU) execInst(bus *device.Bus, as abi.As, arg *abi.AsRawArgument) error
 	case riscv.ASUB:
 		p.RegX[arg.Rd] = p.RegX[arg.Rs1] - p.RegX[arg.Rs2]
 	case riscv.ASLL:
-		p.RegX[arg.Rd] = p.RegX[arg.Rs1] << RVUInt(arg.Imm)
+		p.RegX[arg.Rd] = p.RegX[arg.Rs1] << (p.RegX[arg.Rs2] & (XLen - 1))
 	case riscv.ASLT:
 		if int64(p.RegX[arg.Rs1]) < int64(p.RegX[arg.Rs2]) {
 			p.RegX[arg.Rd] = 1
@@ -223,9 +223,9 @@ func (p *CPU) execInst(bus *device.Bus, as abi.As, arg *abi.AsRawArgument) error
 	case riscv.AXOR:
 		p.RegX[arg.Rd] = p.RegX[arg.Rs1] ^ p.RegX[arg.Rs2]
 	case riscv.ASRL:
-		p.RegX[arg.Rd] = p.RegX[arg.Rs1] >> RVUInt(arg.Imm)
+		p.RegX[arg.Rd] = p.RegX[arg.Rs1] >> (p.RegX[arg.Rs2] & (XLen - 1))
 	case riscv.ASRA:
-		p.RegX[arg.Rd] = RVUInt(int64(p.RegX[arg.Rs1]) >> RVUInt(arg.Imm))
+		p.RegX[arg.Rd] = RVUInt(int64(p.RegX[arg.Rs1]) >> (p.RegX[arg.Rs2] & (XLen - 1)))
 	case riscv.AOR:
 		p.RegX[arg.Rd] = p.RegX[arg.Rs1] | p.RegX[arg.Rs2]
 	case riscv.AAND:
@@ -270,12 +270,11 @@ func (p *CPU) execInst(bus *device.Bus, as abi.As, arg *abi.AsRawArgument) error
 	case riscv.ASUBW:
 		p.RegX[arg.Rd] = RVUInt(int32(p.RegX[arg.Rs1]) - int32(p.RegX[arg.Rs2]))
 	case riscv.ASLLW:
-		p.RegX[arg.Rd] = RVUInt(int32(p.RegX[arg.Rs1] << arg.Imm))
+		p.RegX[arg.Rd] = RVUInt(int32(p.RegX[arg.Rs1] << (p.RegX[arg.Rs2] & 31)))
 	case riscv.ASRLW:
-		p.RegX[arg.Rd] = RVUInt(int32(uint32(p.RegX[arg.Rs1]) << arg.Imm))
-
+		p.RegX[arg.Rd] = RVUInt(int32(uint32(p.RegX[arg.Rs1]) >> (p.RegX[arg.Rs2] & 31)))
 	case riscv.ASRAW:
-		p.RegX[arg.Rd] = RVUInt(int32(p.RegX[arg.Rs1] >> arg.Imm))
+		p.RegX[arg.Rd] = RVUInt(int32(p.RegX[arg.Rs1]) >> (p.RegX[arg.Rs2] & 31))
 
 	// RV32/RV64 Zicsr Standard Extension
 
